@@ -244,4 +244,6 @@ def to_z3(v, ty=None):
         return z3.IntVal(ord(v))
     if ty == TCStr and isinstance(v, str):
         return TCStr.lit(v)
+    if isinstance(v, Obj) and isinstance(ty, TKey) and isinstance(v.__dict__.get('ctx_key'), SV) and v.__dict__['ctx_key'].ty == ty:
+        return v.__dict__['ctx_key'].e      # the view of an abstract object (a node's attribute dictionary) stored by its identity
     raise EngineError('cannot convert %r to %s' % (v, ty))
